@@ -106,8 +106,9 @@ type c02Case struct {
 	Sched       SchedSpec
 	Steer       string // "", "r-lead0", "s-lead0", "r+s-lead0": force an encoding with a zero top byte
 	SteerSd     int
-	OtherGlobal bool // the process-global curve is left at secp256k1 although the parameters carry edwards25519
-	ShortSSID   bool // dealer keys only: search for a key whose session id has a leading zero byte
+	IDStyle     string // "", "blank", "shared": free-form id strings of the parties
+	OtherGlobal bool   // the process-global curve is left at secp256k1 although the parameters carry edwards25519
+	ShortSSID   bool   // dealer keys only: search for a key whose session id has a leading zero byte
 }
 
 func genC02(t *rapid.T) c02Case {
@@ -145,6 +146,7 @@ func genC02(t *rapid.T) c02Case {
 	c.SteerSd = rapid.IntRange(0, 1<<30).Draw(t, "steerseed")
 	c.ShortSSID = c.Key.Src == "dealer" && rapid.IntRange(0, 3).Draw(t, "shortssid") == 0
 	c.OtherGlobal = rapid.Bool().Draw(t, "otherGlobal")
+	c.IDStyle = rapid.SampledFrom([]string{"", "", "", "blank", "shared"}).Draw(t, "idStyle")
 	return c
 }
 
@@ -227,8 +229,8 @@ func planSteerEd(c c02Case, nSigners int, priv *big.Int, pubX, pubY *big.Int, ms
 	return rs, outMsg
 }
 
-func runC02(c c02Case) ev.Outcome {
-	out := ev.Outcome{Label: fmt.Sprintf("eddsa-sign %s |S|=%d len=%s fbl=%v sched=%s", c.Key, len(c.Signers), c.LenCls, c.FBL, c.Sched.Class())}
+func runC02(c c02Case) (out ev.Outcome) {
+	out = ev.Outcome{Label: fmt.Sprintf("eddsa-sign %s |S|=%d len=%s fbl=%v sched=%s", c.Key, len(c.Signers), c.LenCls, c.FBL, c.Sched.Class())}
 	msg := c.Msg.Bytes()
 	out.Nontrivial = !(c.Key.Src == "fixture" && len(c.Signers) == 3 && c.LenCls == "1" && !c.FBL && c.Sched.Kind == "fifo")
 	fail := func(sig, f string, a ...interface{}) ev.Outcome {
@@ -236,6 +238,10 @@ func runC02(c c02Case) ev.Outcome {
 		return out
 	}
 	setGlobalCurve(true, c.OtherGlobal)
+	sim.IDStyle = c.IDStyle
+	if c.IDStyle != "" {
+		defer func() { out.Label += " id-strings=" + c.IDStyle }()
+	}
 	if c.OtherGlobal {
 		out.Label += " global-curve=other"
 	}
